@@ -535,7 +535,7 @@ func (a *Analysis) CheckC14(rep *Report) {
 					if e.Dst.Contains(func(x *Val) bool { return x.Op == "bufbytes" || x.Op == "bufnext" }) {
 						rep.Ob("H1-read-only", name+":store", false, epos, "Calc stores into the buffer's bytes: "+e.Dst.Pretty())
 					}
-					if g := globalWritten(e); g != "" {
+					if g := globalWritten(e); g != "" && !a.onceAssignment(e) {
 						rep.Ob("H2-deterministic", name+":"+g, false, epos, "Calc writes package-level state "+g)
 					}
 					if r := addrRoot(e.Dst); r != nil && r.Op == "param" && r.ID == 0 {
